@@ -311,3 +311,309 @@ Proof.
     + destruct (Z.leb_spec (- H) (- m)); [lia|]. reflexivity.
     + destruct (Z.ltb_spec m H); [lia|]. rewrite andb_false_r. reflexivity.
 Qed.
+
+Theorem I_from_str_radix_empty dbg w n r : 2 <= r <= 36 -> I_from_str_radix dbg w n [] r = PErr Empty.
+Proof.
+  intros Hr. unfold I_from_str_radix, radix_in_range.
+  destruct (Z.leb_spec 2 r); [|lia]. destruct (Z.leb_spec r 36); [|lia]. reflexivity.
+Qed.
+
+Theorem I_from_str_radix_lone_sign dbg w n r b : 2 <= r <= 36 -> b = 43 \/ b = 45 ->
+  I_from_str_radix dbg w n [b] r = PErr InvalidDigit.
+Proof.
+  intros Hr Hb. unfold I_from_str_radix, radix_in_range.
+  destruct (Z.leb_spec 2 r); [|lia]. destruct (Z.leb_spec r 36); [|lia].
+  destruct Hb as [-> | ->]; reflexivity.
+Qed.
+
+Theorem I_from_str_radix_reject (Hadd : U_overflowing_add_spec) dbg w n s r :
+  0 < w -> w mod 8 = 0 -> (0 < n)%nat -> 2 <= r <= 36 -> s <> [] -> grammarb true r s = false ->
+  exists k, I_from_str_radix dbg w n s r = PErr k /\
+            (k = InvalidDigit \/ k = PosOverflow \/ k = NegOverflow) /\
+            (r ^ Z.of_nat (length (body true s)) <= Mod w n -> k = InvalidDigit).
+Proof.
+  intros Hw H8 Hn Hr Hs0 Hg.
+  unfold I_from_str_radix, radix_in_range.
+  destruct (Z.leb_spec 2 r) as [Hr2|Hr2]; [|lia]. destruct (Z.leb_spec r 36) as [Hr36|Hr36]; [|lia]. cbn [andb].
+  destruct s as [|b0 t]; [contradiction|].
+  set (s := b0 :: t) in *.
+  pose proof (sign_len_true b0 t) as Hsl. fold s in Hsl.
+  pose proof (body_length true s) as Hbl.
+  set (sg := (b0 =? 45) || (b0 =? 43)) in *.
+  destruct (body true s) as [|x bt] eqn:Eb.
+  - (* a lone sign *)
+    assert (E : sg = true /\ t = []).
+    { cbn [length] in Hbl. rewrite Hsl in Hbl. unfold s in Hbl. cbn [length] in Hbl.
+      destruct sg; [|lia]. split; [reflexivity|]. destruct t; [reflexivity | cbn [length] in Hbl; lia]. }
+    destruct E as [Esg ->]. exists InvalidDigit. split; [|split; [left; reflexivity | reflexivity]].
+    unfold from_buf_radix_internal. rewrite Esg. reflexivity.
+  - assert (Hlt : ((if sg then 1 else 0) < length s)%nat).
+    { rewrite <- Hsl. cbn [length] in Hbl. lia. }
+    pose proof (from_buf_spec Hadd true true dbg w n s r sg (or_introl eq_refl) Hw H8 Hn ltac:(lia) Hlt) as Hfb.
+    cbv zeta in Hfb. unfold Lm in Hfb. rewrite <- Hsl in Hfb. fold (body true s) in Hfb. rewrite Eb in Hfb.
+    specialize (Hfb (dig_true_nonneg_all _)).
+    unfold grammarb in Hg. rewrite Eb in Hg.
+    rewrite okd_char_all, Hg in Hfb by lia.
+    destruct Hfb as (k & Ek & Hk1 & Hk2). rewrite Ek.
+    destruct Hk1 as [-> | ->].
+    + exists InvalidDigit. split; [reflexivity|]. split; [left; reflexivity | reflexivity].
+    + replace (PosOverflow =? PosOverflow) with true by reflexivity. cbn [andb].
+      destruct (b0 =? 45).
+      * exists NegOverflow. split; [reflexivity|]. split; [right; right; reflexivity|].
+        intros Hb. specialize (Hk2 Hb). discriminate.
+      * exists PosOverflow. split; [reflexivity|]. split; [right; left; reflexivity|].
+        intros Hb. specialize (Hk2 Hb). discriminate.
+Qed.
+
+(* ---------- from_radix_be / from_radix_le (radix 2..255; 256 is the byte-slice decoder) ---------- *)
+Lemma digits_of_zero w n : 0 < w -> digits_of w n 0 = ZERO n.
+Proof.
+  intros Hw. apply digits_of_unique; [lia | apply wf_repeat0; lia | apply uval_repeat0].
+Qed.
+
+Lemma dig_false_all ds : bytes ds -> Forall (fun b => 0 <= dig false b) ds.
+Proof. intros H. eapply Forall_impl; [|exact H]. cbv beta. intros b Hb. unfold dig, byte_to_digit. lia. Qed.
+
+Lemma map_dig_false ds : map (dig false) ds = ds.
+Proof. induction ds as [|d ds IH]; [reflexivity|]. cbn [map]. rewrite IH. reflexivity. Qed.
+
+Lemma okd_false r ds : forallb (okd false r) ds = digits_below r ds.
+Proof. reflexivity. Qed.
+
+Definition slice_value (w : Z) (n : nat) (r : Z) (msd_first : list Z) : option (list Z) :=
+  if digits_below r msd_first && (horner r msd_first <? Mod w n) then Some (digits_of w n (horner r msd_first))
+  else None.
+
+Lemma from_buf_slice (Hadd : U_overflowing_add_spec) be dbg w n ds r :
+  0 < w -> w mod 8 = 0 -> (0 < n)%nat -> 2 <= r < 256 -> ds <> [] -> bytes ds ->
+  pok (from_buf_radix_internal false be dbg w n ds r false) = POk (slice_value w n r (Lm be ds)).
+Proof.
+  intros Hw H8 Hn Hr Hd0 Hb.
+  assert (Hlt : (0 < length ds)%nat) by (destruct ds; [contradiction | cbn [length]; lia]).
+  pose proof (from_buf_spec Hadd false be dbg w n ds r false (or_intror eq_refl) Hw H8 Hn Hr Hlt) as Hfb.
+  cbv zeta in Hfb. cbn [skipn] in Hfb.
+  assert (HbL : bytes (Lm be ds)).
+  { unfold Lm. destruct be; [exact Hb | apply Forall_rev'; exact Hb]. }
+  specialize (Hfb (dig_false_all _ HbL)).
+  rewrite okd_false, map_dig_false in Hfb. unfold slice_value.
+  destruct (digits_below r (Lm be ds)); cbn [andb].
+  - rewrite Hfb. unfold parse_value. destruct (horner r (Lm be ds) <? Mod w n); reflexivity.
+  - destruct Hfb as (k & Ek & _). rewrite Ek. reflexivity.
+Qed.
+
+Theorem U_from_radix_be_spec (Hadd : U_overflowing_add_spec) dbg w n ds r :
+  0 < w -> w mod 8 = 0 -> (0 < n)%nat -> 2 <= r < 256 -> bytes ds ->
+  U_from_radix_be dbg w n ds r = POk (slice_value w n r ds).
+Proof.
+  intros Hw H8 Hn Hr Hb. unfold U_from_radix_be, radix_in_range.
+  destruct (Z.leb_spec 2 r); [|lia]. destruct (Z.leb_spec r 256); [|lia]. cbn [andb].
+  destruct ds as [|d ds].
+  - unfold slice_value. cbn [digits_below forallb andb]. rewrite horner_nil.
+    pose proof (Mod_pos w n ltac:(lia)). destruct (Z.ltb_spec 0 (Mod w n)); [|lia].
+    rewrite digits_of_zero by lia. reflexivity.
+  - destruct (Z.eqb_spec r 256); [lia|].
+    apply (from_buf_slice Hadd true dbg w n (d :: ds) r Hw H8 Hn Hr ltac:(discriminate) Hb).
+Qed.
+
+Theorem U_from_radix_le_spec (Hadd : U_overflowing_add_spec) dbg w n ds r :
+  0 < w -> w mod 8 = 0 -> (0 < n)%nat -> 2 <= r < 256 -> bytes ds ->
+  U_from_radix_le dbg w n ds r = POk (slice_value w n r (rev ds)).
+Proof.
+  intros Hw H8 Hn Hr Hb. unfold U_from_radix_le, radix_in_range.
+  destruct (Z.leb_spec 2 r); [|lia]. destruct (Z.leb_spec r 256); [|lia]. cbn [andb].
+  destruct ds as [|d ds].
+  - unfold slice_value. cbn [rev digits_below forallb andb]. rewrite horner_nil.
+    pose proof (Mod_pos w n ltac:(lia)). destruct (Z.ltb_spec 0 (Mod w n)); [|lia].
+    rewrite digits_of_zero by lia. reflexivity.
+  - destruct (Z.eqb_spec r 256); [lia|].
+    apply (from_buf_slice Hadd false dbg w n (d :: ds) r Hw H8 Hn Hr ltac:(discriminate) Hb).
+Qed.
+
+(* ---------- parse_bytes, FromStr, parse_str_radix ---------- *)
+Lemma ascii_utf8_fuel bs : Forall (fun b => 0 <= b < 128) bs ->
+  forall fuel, (length bs <= fuel)%nat -> utf8_valid_fuel fuel bs = true.
+Proof.
+  intros H. induction H as [|b bs Hb _ IH]; intros fuel Hf.
+  - destruct fuel; reflexivity.
+  - destruct fuel as [|f]; [cbn [length] in Hf; lia|]. cbn [utf8_valid_fuel]. unfold inr at 1.
+    destruct (Z.leb_spec 0 b); [|lia]. destruct (Z.leb_spec b 127); [|lia]. cbn [andb].
+    apply IH. cbn [length] in Hf. lia.
+Qed.
+
+Lemma ascii_utf8_valid bs : Forall (fun b => 0 <= b < 128) bs -> utf8_valid bs = true.
+Proof. intros H. unfold utf8_valid. apply ascii_utf8_fuel; [exact H | lia]. Qed.
+
+Lemma is_digit_char_ascii r b : is_digit_char r b = true -> 0 <= b < 128.
+Proof.
+  unfold is_digit_char, char_digit.
+  destruct ((48 <=? b) && (b <=? 57)) eqn:E1.
+  { apply andb_true_iff in E1. destruct E1 as [H1 H2]. apply Z.leb_le in H1, H2. lia. }
+  destruct ((97 <=? b) && (b <=? 122)) eqn:E2.
+  { apply andb_true_iff in E2. destruct E2 as [H1 H2]. apply Z.leb_le in H1, H2. lia. }
+  destruct ((65 <=? b) && (b <=? 90)) eqn:E3.
+  { apply andb_true_iff in E3. destruct E3 as [H1 H2]. apply Z.leb_le in H1, H2. lia. }
+  discriminate.
+Qed.
+
+Lemma grammar_ascii signed r s : grammarb signed r s = true -> Forall (fun b => 0 <= b < 128) s.
+Proof.
+  intros Hg. destruct (grammar_shape _ _ _ Hg) as (_ & Hok).
+  assert (Hbody : Forall (fun b => 0 <= b < 128) (body signed s)).
+  { apply Forall_forall. intros b Hb. rewrite forallb_forall in Hok. apply (is_digit_char_ascii r). auto. }
+  unfold body in Hbody. destruct s as [|b0 t]; [constructor|].
+  unfold sign_len in Hbody.
+  destruct ((b0 =? 43) || (signed && (b0 =? 45))) eqn:E; cbn [skipn] in Hbody; [|exact Hbody].
+  constructor; [|exact Hbody].
+  apply orb_true_iff in E. destruct E as [E|E].
+  - apply Z.eqb_eq in E. lia.
+  - apply andb_true_iff in E. destruct E as [_ E]. apply Z.eqb_eq in E. lia.
+Qed.
+
+Theorem U_parse_bytes_projection dbg w n buf r :
+  U_parse_bytes dbg w n buf r = if utf8_valid buf then pok (U_from_str_radix dbg w n buf r) else POk None.
+Proof. reflexivity. Qed.
+Theorem I_parse_bytes_projection dbg w n buf r :
+  I_parse_bytes dbg w n buf r = if utf8_valid buf then pok (I_from_str_radix dbg w n buf r) else POk None.
+Proof. reflexivity. Qed.
+
+Theorem U_parse_bytes_ok (Hadd : U_overflowing_add_spec) dbg w n s r :
+  0 < w -> w mod 8 = 0 -> (0 < n)%nat -> 2 <= r <= 36 -> grammarb false r s = true ->
+  U_parse_bytes dbg w n s r =
+    let v := denote false r s in POk (if v <? Mod w n then Some (enc w n v) else None).
+Proof.
+  intros Hw H8 Hn Hr Hg. unfold U_parse_bytes.
+  rewrite (ascii_utf8_valid s (grammar_ascii _ _ _ Hg)).
+  rewrite (U_from_str_radix_ok Hadd dbg w n s r Hw H8 Hn Hr Hg). cbv zeta.
+  destruct (denote false r s <? Mod w n); reflexivity.
+Qed.
+
+Theorem U_parse_bytes_reject (Hadd : U_overflowing_add_spec) dbg w n s r :
+  0 < w -> w mod 8 = 0 -> (0 < n)%nat -> 2 <= r <= 36 -> grammarb false r s = false ->
+  U_parse_bytes dbg w n s r = POk None.
+Proof.
+  intros Hw H8 Hn Hr Hg. unfold U_parse_bytes. destruct (utf8_valid s); [|reflexivity].
+  destruct s as [|b0 t].
+  - rewrite U_from_str_radix_empty by lia. reflexivity.
+  - destruct (U_from_str_radix_reject Hadd dbg w n (b0 :: t) r Hw H8 Hn Hr ltac:(discriminate) Hg) as (k & Ek & _).
+    rewrite Ek. reflexivity.
+Qed.
+
+Theorem I_parse_bytes_ok
+  (Hadd : U_overflowing_add_spec) (Hbit : bit_spec) (Htz : trailing_zeros_spec)
+  (Hneg : I_wrapping_neg_spec) (Hisneg : is_negative_spec) dbg w n s r :
+  0 < w -> w mod 8 = 0 -> (0 < n)%nat -> 2 <= r <= 36 -> grammarb true r s = true ->
+  I_parse_bytes dbg w n s r = pok (signed_value w n (is_neg true s) (denote true r s)).
+Proof.
+  intros Hw H8 Hn Hr Hg. unfold I_parse_bytes.
+  rewrite (ascii_utf8_valid s (grammar_ascii _ _ _ Hg)).
+  rewrite (I_from_str_radix_ok Hadd Hbit Htz Hneg Hisneg dbg w n s r Hw H8 Hn Hr Hg). reflexivity.
+Qed.
+
+Theorem I_parse_bytes_reject (Hadd : U_overflowing_add_spec) dbg w n s r :
+  0 < w -> w mod 8 = 0 -> (0 < n)%nat -> 2 <= r <= 36 -> grammarb true r s = false ->
+  I_parse_bytes dbg w n s r = POk None.
+Proof.
+  intros Hw H8 Hn Hr Hg. unfold I_parse_bytes. destruct (utf8_valid s); [|reflexivity].
+  destruct s as [|b0 t].
+  - rewrite I_from_str_radix_empty by lia. reflexivity.
+  - destruct (I_from_str_radix_reject Hadd dbg w n (b0 :: t) r Hw H8 Hn Hr ltac:(discriminate) Hg) as (k & Ek & _).
+    rewrite Ek. reflexivity.
+Qed.
+
+Theorem U_from_str_is_radix_10 dbg w n s : U_from_str dbg w n s = U_from_str_radix dbg w n s 10.
+Proof. reflexivity. Qed.
+Theorem I_from_str_is_radix_10 dbg w n s : I_from_str dbg w n s = I_from_str_radix dbg w n s 10.
+Proof. reflexivity. Qed.
+
+(* ---------- panics exactly for an out-of-range radix ---------- *)
+Theorem U_from_str_radix_panic (Hadd : U_overflowing_add_spec) dbg w n s r :
+  0 < w -> w mod 8 = 0 -> (0 < n)%nat ->
+  (U_from_str_radix dbg w n s r = PPanic <-> ~ (2 <= r <= 36)) /\ U_from_str_radix dbg w n s r <> PFuel.
+Proof.
+  intros Hw H8 Hn.
+  destruct (Z_le_dec 2 r) as [H2|H2]; [destruct (Z_le_dec r 36) as [H36|H36]|].
+  - (* in range: Ok or Err *)
+    assert (Hres : exists x, U_from_str_radix dbg w n s r = POk x \/ exists k, U_from_str_radix dbg w n s r = PErr k).
+    { destruct s as [|b0 t].
+      - exists []. right. exists Empty. apply U_from_str_radix_empty. lia.
+      - destruct (grammarb false r (b0 :: t)) eqn:Eg.
+        + rewrite (U_from_str_radix_ok Hadd dbg w n _ r Hw H8 Hn ltac:(lia) Eg). cbv zeta.
+          destruct (denote false r (b0 :: t) <? Mod w n); [eexists; left; reflexivity | exists []; right; eexists; reflexivity].
+        + destruct (U_from_str_radix_reject Hadd dbg w n (b0 :: t) r Hw H8 Hn ltac:(lia) ltac:(discriminate) Eg) as (k & Ek & _).
+          exists []. right. exists k. exact Ek. }
+    destruct Hres as (x & [E|(k & E)]); rewrite E; (split; [split; [discriminate | lia] | discriminate]).
+  - assert (E : U_from_str_radix dbg w n s r = PPanic).
+    { unfold U_from_str_radix, radix_in_range. destruct (Z.leb_spec r 36); [lia|]. rewrite andb_false_r. reflexivity. }
+    rewrite E. split; [split; [lia | reflexivity] | discriminate].
+  - assert (E : U_from_str_radix dbg w n s r = PPanic).
+    { unfold U_from_str_radix, radix_in_range. destruct (Z.leb_spec 2 r); [lia|]. reflexivity. }
+    rewrite E. split; [split; [lia | reflexivity] | discriminate].
+Qed.
+
+Theorem I_from_str_radix_panic
+  (Hadd : U_overflowing_add_spec) (Hbit : bit_spec) (Htz : trailing_zeros_spec)
+  (Hneg : I_wrapping_neg_spec) (Hisneg : is_negative_spec) dbg w n s r :
+  0 < w -> w mod 8 = 0 -> (0 < n)%nat ->
+  (I_from_str_radix dbg w n s r = PPanic <-> ~ (2 <= r <= 36)) /\ I_from_str_radix dbg w n s r <> PFuel.
+Proof.
+  intros Hw H8 Hn.
+  destruct (Z_le_dec 2 r) as [H2|H2]; [destruct (Z_le_dec r 36) as [H36|H36]|].
+  - assert (Hres : exists x, I_from_str_radix dbg w n s r = POk x \/ exists k, I_from_str_radix dbg w n s r = PErr k).
+    { destruct s as [|b0 t].
+      - exists []. right. exists Empty. apply I_from_str_radix_empty. lia.
+      - destruct (grammarb true r (b0 :: t)) eqn:Eg.
+        + rewrite (I_from_str_radix_ok Hadd Hbit Htz Hneg Hisneg dbg w n _ r Hw H8 Hn ltac:(lia) Eg).
+          unfold signed_value. destruct (_ && _); [eexists; left; reflexivity | exists []; right; eexists; reflexivity].
+        + destruct (I_from_str_radix_reject Hadd dbg w n (b0 :: t) r Hw H8 Hn ltac:(lia) ltac:(discriminate) Eg) as (k & Ek & _).
+          exists []. right. exists k. exact Ek. }
+    destruct Hres as (x & [E|(k & E)]); rewrite E; (split; [split; [discriminate | lia] | discriminate]).
+  - assert (E : I_from_str_radix dbg w n s r = PPanic).
+    { unfold I_from_str_radix, radix_in_range. destruct (Z.leb_spec r 36); [lia|]. rewrite andb_false_r. reflexivity. }
+    rewrite E. split; [split; [lia | reflexivity] | discriminate].
+  - assert (E : I_from_str_radix dbg w n s r = PPanic).
+    { unfold I_from_str_radix, radix_in_range. destruct (Z.leb_spec 2 r); [lia|]. reflexivity. }
+    rewrite E. split; [split; [lia | reflexivity] | discriminate].
+Qed.
+
+(* parse_bytes: a panic can only come from the radix assertion *)
+Theorem U_parse_bytes_panic (Hadd : U_overflowing_add_spec) dbg w n s r :
+  0 < w -> w mod 8 = 0 -> (0 < n)%nat -> U_parse_bytes dbg w n s r = PPanic -> ~ (2 <= r <= 36).
+Proof.
+  intros Hw H8 Hn. unfold U_parse_bytes. destruct (utf8_valid s); [|discriminate].
+  destruct (U_from_str_radix_panic Hadd dbg w n s r Hw H8 Hn) as ((Hp & _) & _).
+  destruct (U_from_str_radix dbg w n s r); cbn [pok]; try discriminate. intros _. apply Hp. reflexivity.
+Qed.
+
+Theorem U_from_radix_be_panic (Hadd : U_overflowing_add_spec) dbg w n ds r :
+  0 < w -> w mod 8 = 0 -> (0 < n)%nat -> bytes ds ->
+  (U_from_radix_be dbg w n ds r = PPanic <-> ~ (2 <= r <= 256)).
+Proof.
+  intros Hw H8 Hn Hb.
+  destruct (Z_le_dec 2 r) as [H2|H2]; [destruct (Z_le_dec r 256) as [H256|H256]|].
+  - destruct (Z.eq_dec r 256) as [->|Hne].
+    + unfold U_from_radix_be. cbn [radix_in_range]. destruct ds; split; try discriminate; lia.
+    + rewrite (U_from_radix_be_spec Hadd dbg w n ds r Hw H8 Hn ltac:(lia) Hb). split; [discriminate | lia].
+  - assert (E : U_from_radix_be dbg w n ds r = PPanic).
+    { unfold U_from_radix_be, radix_in_range. destruct (Z.leb_spec r 256); [lia|]. rewrite andb_false_r. reflexivity. }
+    rewrite E. split; [lia | reflexivity].
+  - assert (E : U_from_radix_be dbg w n ds r = PPanic).
+    { unfold U_from_radix_be, radix_in_range. destruct (Z.leb_spec 2 r); [lia|]. reflexivity. }
+    rewrite E. split; [lia | reflexivity].
+Qed.
+
+Theorem U_from_radix_le_panic (Hadd : U_overflowing_add_spec) dbg w n ds r :
+  0 < w -> w mod 8 = 0 -> (0 < n)%nat -> bytes ds ->
+  (U_from_radix_le dbg w n ds r = PPanic <-> ~ (2 <= r <= 256)).
+Proof.
+  intros Hw H8 Hn Hb.
+  destruct (Z_le_dec 2 r) as [H2|H2]; [destruct (Z_le_dec r 256) as [H256|H256]|].
+  - destruct (Z.eq_dec r 256) as [->|Hne].
+    + unfold U_from_radix_le. cbn [radix_in_range]. destruct ds; split; try discriminate; lia.
+    + rewrite (U_from_radix_le_spec Hadd dbg w n ds r Hw H8 Hn ltac:(lia) Hb). split; [discriminate | lia].
+  - assert (E : U_from_radix_le dbg w n ds r = PPanic).
+    { unfold U_from_radix_le, radix_in_range. destruct (Z.leb_spec r 256); [lia|]. rewrite andb_false_r. reflexivity. }
+    rewrite E. split; [lia | reflexivity].
+  - assert (E : U_from_radix_le dbg w n ds r = PPanic).
+    { unfold U_from_radix_le, radix_in_range. destruct (Z.leb_spec 2 r); [lia|]. reflexivity. }
+    rewrite E. split; [lia | reflexivity].
+Qed.
